@@ -682,6 +682,25 @@ def check(prog, run):
                     run.check(f in stores, "R4", "%s maintains %s" % (mir.norm(o), f), "stored on success",
                               "%s rejects against `%s`, but its sibling %s (same queue) never updates it: mixing the two entry points mis-judges or mis-names the violation" % (mir.norm(a), f, mir.norm(o)),
                               mir.loc_of(u.bodies[o]))
+    # state another entry point judges against: a field that any frame-writing entry reads in a rejection guard and that one video entry
+    # point maintains must be maintained by its sibling as well (write_audio judges `first_video_pts`, written by both video entries)
+    all_reads = set()
+    for fs_ in state_reads.values():
+        all_reads |= set(fs_)
+    for ent_, want_ in TABLE.items():
+        for rows_ in want_.values():
+            for r_ in rows_:
+                for tok in r_.replace("(", " ").replace(")", " ").replace(",", " ").split():
+                    if tok.startswith("state:"):
+                        all_reads.add(tok[len("state:"):])
+    for g_ in groups:
+        stored = {o_: {p_[0] for (r_, p_) in cx.st.sum.get(o_, ()) if r_ == ("arg", 1) and p_} for o_ in g_}
+        anyone = set().union(*stored.values()) if stored else set()
+        for f_ in sorted(anyone & all_reads):
+            for o_ in g_:
+                run.check(f_ in stored[o_], "R4", "%s maintains %s (judged elsewhere)" % (mir.norm(o_), f_), "stored on success",
+                          "`%s` is read by a rejection guard of a frame-writing entry point and maintained by %s, but %s (same queue) never stores it: after frames written through %s the other calls are judged against stale state" %
+                          (f_, ", ".join(mir.norm(x_).split("::")[-1] for x_ in g_ if f_ in stored[x_]), mir.norm(o_), mir.norm(o_).split("::")[-1]), mir.loc_of(u.bodies[o_]))
     r5(cx, run)
     run.rule("R11", "a first keyframe carrying its parameter sets is accepted wherever they stand in the frame: the extractors find them for every header byte of any other unit before or after them (C07.R13 instances)")
     from . import c07
